@@ -14,13 +14,14 @@ C02.e K9  the parity skeleton of the per-term estimator: mask marks exactly the 
 from __future__ import annotations
 
 import ast
+import copy
 import itertools
 from typing import Dict, List, Optional, Set, Tuple
 
 import sympy as sp
 
 from ..consteval import Folder, Opaque, Raised, Rec, Undecidable
-from ..index import AnalysisError, FunctionInfo, Index, full, norm, own_nodes
+from ..index import AnalysisError, FunctionInfo, Index, full, norm, own_nodes, resolve_local
 from ..report import Report
 from ..rules import siblings as sib
 from .. import symx
@@ -226,7 +227,16 @@ def check_sibling_routes(idx: Index, rep: Report):
         parts = {}
         for n in ast.walk(loop[0]):
             if isinstance(n, ast.Assign) and isinstance(n.targets[0], ast.Name) and n.targets[0].id in ("basis_circuit", "full_circuit"):
-                parts[n.targets[0].id] = norm(n.value)
+                v = copy.deepcopy(n.value)
+                for sub in ast.walk(v):             # values handed on through locals are the same values
+                    for fld, val in ast.iter_fields(sub):
+                        if isinstance(val, list):
+                            for i_, x in enumerate(val):
+                                if isinstance(x, ast.Name) and x.id not in ("basis_circuit", "initial_circuit", "term"):
+                                    val[i_] = resolve_local(f.node, x)
+                        elif isinstance(val, ast.Name) and val.id not in ("basis_circuit", "initial_circuit", "term"):
+                            setattr(sub, fld, resolve_local(f.node, val))
+                parts[n.targets[0].id] = norm(v)
             if isinstance(n, ast.Call) and norm(n.func) == "self.simulate":
                 parts["simulate"] = norm(n.func) + "(" + ", ".join([norm(a) for a in n.args] + sorted(f"{k.arg}={norm(k.value)}" for k in n.keywords)) + ")"
         parts["iter"] = norm(loop[0].iter)
